@@ -286,11 +286,21 @@ func observe(r *core.Run, sc *scenario, canonical bool) (out []obs, permuted boo
 	}
 
 	dec, diag := cedar.Authorize(ps, ents, sc.req)
-	add("authorize(PolicySet)", diagString(dec, diag))
+	a1 := diagString(dec, diag)
+	add("authorize(PolicySet)", a1)
 	dec, diag = cedar.Authorize(pm, ents, sc.req)
-	add("authorize(PolicyMap)", diagString(dec, diag))
+	a2 := diagString(dec, diag)
+	add("authorize(PolicyMap)", a2)
 	dec, diag = cedar.Authorize(it, ents, sc.req)
-	add("authorize(custom iterator)", diagString(dec, diag))
+	a3 := diagString(dec, diag)
+	add("authorize(custom iterator)", a3)
+	// the same request against the same policies and entities, asked again and through
+	// another container: the answer may not depend on what was evaluated before
+	dec, diag = cedar.Authorize(ps, ents, sc.req)
+	a4 := diagString(dec, diag)
+	if (a1 != a2 || a1 != a3 || a1 != a4) && direct == nil {
+		direct = core.Violationf("repeated-call-differs", "repeated-call-differs:authorize", "the same request against the same policies and entities gave different answers within one pass\n  PolicySet:        %s\n  PolicyMap:        %s\n  custom iterator:  %s\n  PolicySet again:  %s", clip(a1), clip(a2), clip(a3), clip(a4))
+	}
 	if b, err := json.Marshal(diag); err == nil {
 		_ = b // Diagnostic JSON keeps evaluation order of reasons; compared as a set above
 	}
@@ -390,6 +400,13 @@ func observe(r *core.Run, sc *scenario, canonical bool) (out []obs, permuted boo
 		for _, i := range perm(S, sc.docN, canonical) {
 			id := cedar.PolicyID(fmt.Sprintf("policy%d", i))
 			added.Add(id, loaded.Get(id))
+		}
+		// ids that sort between auto-numbered ids as text but not as numbers
+		for k, extra := range []cedar.PolicyID{"policy1_old", "policy1a", "policy01", "Policy9"} {
+			if len(sc.pols) > 0 && (sc.docN+k)%2 == 0 {
+				loaded.Add(extra, sc.pols[0])
+				added.Add(extra, sc.pols[0])
+			}
 		}
 		lj, _ := loaded.MarshalJSON()
 		aj, _ := added.MarshalJSON()
